@@ -136,7 +136,8 @@ def run(chk, replay=None):
         if attempt:
             time.sleep(5 + 10 * attempt)      # let the concurrent run that overwrote the files finish its build
         write_generated()
-        broken = chk.lean(['Lcapy/Props/C08.lean', 'Lcapy/Props/C08Net.lean'],
+        broken = chk.lean(['Lcapy/Props/C08.lean', 'Lcapy/Props/C08Net.lean',
+                           'Lcapy/Props/NonVacuityC08.lean', 'Lcapy/Props/NonVacuityC08Net.lean'],
                           helper_files=['Lcapy/Proofs/TwoPortBase.lean', 'Lcapy/Proofs/TwoPortNet.lean', 'Lcapy/Spec/TwoPort.lean',
                                         'Lcapy/Spec/TwoPortExec.lean', 'Lcapy/Spec/TwoPortNet.lean', 'Lcapy/Spec/TwoPortNetExec.lean',
                                         'Lcapy/Model/M2.lean', 'Lcapy/Model/CRat.lean', 'Lcapy/Driver/C08.lean',
